@@ -7,7 +7,9 @@ Real classes (every Message subclass, by introspection):
    str, list, dict) through the constructor (= from_dict / from_json path) and from_urlencoded;
  * truth tables of the cross-parameter rules of oidc.AuthorizationRequest (also run through the model),
    RegistrationRequest / RegistrationResponse and IdToken;
- * embedded signed objects (id_token, request, logout_token): valid, tampered, wrong key, alg none;
+ * embedded signed objects (id_token, request, logout_token): valid, tampered, wrong key, alg none, bare
+   JSON; the same wrapped in a JWE to the verifier's own encryption key (anybody can build one); with and
+   without the allowed_sign_alg keyword; BackChannelLogoutRequest also against Model/MsgCheck.v bclogout_verify;
  * request objects: every class that declares a `request` parameter x complete / incomplete outer request x
    validly signed complete / incomplete object (the message as it stands after the merge) + forgeries.
 Correspondence: Model/Msg.v generic_verify, construct (add_value), authz_verify and jar_verify / par_verify
@@ -29,7 +31,9 @@ RULE = ("every Message subclass (introspection): base message of its required pa
         "against Message.verify and the class's verify(); typed-slot matrix = every declared parameter x 14 foreign "
         "values of every JSON type via constructor and from_urlencoded; full truth table (810 rows) of the "
         "oidc.AuthorizationRequest rules, tables for RegistrationRequest/Response and IdToken; signed-object "
-        "matrix (valid / tampered / wrong key / alg none) for id_token, request, logout_token; request-object matrix "
+        "matrix (valid / tampered / wrong key / alg none / bare JSON, each also encrypted as a JWE to the verifier's own "
+        "published encryption key, with and without the allowed_sign_alg keyword) for id_token, request, logout_token; "
+        "request-object matrix "
         "for every class declaring a `request` parameter: outer request {complete, each required parameter removed, "
         "only client_id} x validly signed object {complete, each required parameter omitted, only optional, none of "
         "the required} + no object / request_uri + the forgeries of a complete object, judged on the message as it "
@@ -73,11 +77,13 @@ class Run:
         self.rng = ctx.rng
         self.classes = C.discover()
         self.byname = dict(self.classes)
-        self.cases = {"verify": [], "construct": [], "authz": [], "rules": [], "request": []}
+        self.cases = {"verify": [], "construct": [], "authz": [], "rules": [], "request": [], "bclogout": []}
         self.kj = build_keyjar([{"type": "RSA", "use": ["sig"]}, {"type": "EC", "crv": "P-256", "use": ["sig"]}])
         self.kj.import_jwks(self.kj.export_jwks(private=True), "https://op.example")
         self.kj.import_jwks(self.kj.export_jwks(private=True), "c")
         self.other = build_keyjar([{"type": "RSA", "use": ["sig"]}])      # a foreign signer
+        # the verifier's own encryption key pair (public half published: anybody can encrypt to it)
+        self.kj.import_jwks(build_keyjar([{"type": "RSA", "use": ["enc"]}]).export_jwks(private=True), "")
         self.accepting = set()
 
     # ------------------------------------------------------------ the schema oracle
@@ -899,9 +905,32 @@ class Run:
         swapped = ".".join([h, p2, s])
         foreign = payload_msg.to_jwt(key=self.other.get_signing_key("RSA", ""), algorithm="RS256")
         none = payload_msg.to_jwt(key=[], algorithm="none")
-        return [("valid-RS256", good, True), ("valid-ES256", ec, True), ("signature-altered", flipped, False),
-                ("payload-altered", swapped, False), ("foreign-key", foreign, False), ("alg-none", none, False),
-                ("not-a-jwt", "aaa.bbb.ccc", False)]
+        bare = payload_msg.to_json()
+
+        def jwe(text):
+            """what an outsider can do: encrypt anything to the verifier's published encryption key"""
+            from cryptojwt.jwe.jwe import JWE
+            return JWE(text, alg="RSA-OAEP", enc="A128CBC-HS256").encrypt(self.kj.get_encrypt_key("RSA", ""))
+        # (tag, token, carries a valid signature of the expected issuer?, symbolic shape for the model)
+        plain = [("valid-RS256", good, True, ("jws", "SigValid", "RS256")), ("valid-ES256", ec, True, ("jws", "SigValid", "ES256")),
+                 ("signature-altered", flipped, False, ("jws", "SigBad", "RS256")),
+                 ("payload-altered", swapped, False, ("jws", "SigBad", "RS256")),
+                 ("foreign-key", foreign, False, ("jws", "SigBad", "RS256")), ("alg-none", none, False, ("jws", "SigNone", "none")),
+                 ("not-a-jwt", "aaa.bbb.ccc", False, ("junk",)), ("bare-json", bare, False, ("json",))]
+        wrapped = [("jwe:" + t, jwe(tok), g, ("jwe", sh)) for t, tok, g, sh in plain
+                   if t in ("valid-RS256", "bare-json", "alg-none", "foreign-key", "signature-altered")]
+        return plain + wrapped
+
+    @staticmethod
+    def coq_token(shape, payload):
+        """Model/Msg.v `token` for a variant of `payload` (the claims)"""
+        if shape[0] == "jwe":
+            return "(TJwe %s)" % Run.coq_token(shape[1], payload)
+        if shape[0] == "jws":
+            return "(TJws %s %s %s)" % (shape[1], coq_str(shape[2]), coq_msg(payload))
+        if shape[0] == "json":
+            return "(TJson %s)" % coq_msg(payload)
+        return "TJunk"
 
     def signed_objects(self):
         from idpyoidc.message import Message
@@ -923,19 +952,33 @@ class Run:
             ("request", lambda t: AuthorizationRequest(response_type="code", client_id="c", scope="openid",
                                                        redirect_uri="https://rp/cb", request=t), dict(keyjar=self.kj), ro, "c"),
         ]
-        for claim, build, kw, payload, signer in plans:
-            for tag, tok, genuine in variants(copy.deepcopy(payload), signer):
-                m = build(tok)
-                out = self.class_verify(m, **kw)
-                rec = {"class": type(m).__name__, "embedded": claim, "variant": tag}
-                ctx.case_seen(rec, out[0] == "accepted")
-                ctx.count("signed:%s:%s" % (tag, out[0]))
-                if out[0] == "accepted" and not genuine:
-                    ctx.violation("signed-object:%s:%s" % (tag, claim), "%s accepted a %s: %s" % (type(m).__name__, claim, tag), rec)
-                if out[0] == "refused" and genuine:
-                    ctx.count("signed:refused-a-genuine-token")
-                if out[0] == "accepted":
-                    self.schema_oracle(type(m).__name__, type(m), m, rec, "verify()")
+        # the keyword by which the caller names the one signing algorithm it expects (the relying party passes
+        # it for id_token and logout_token; the request classes have no such keyword at the message level)
+        ALLOWED = {"id_token": ("allowed_sign_alg", "RS256"), "logout_token": ("allowed_sign_alg", "RS256")}
+        for claim, build, kw0, payload, signer in plans:
+            for tag, tok, genuine, shape in variants(copy.deepcopy(payload), signer):
+                for with_kw in ([False, True] if claim in ALLOWED else [False]):
+                    kw = dict(kw0)
+                    if with_kw:
+                        kw[ALLOWED[claim][0]] = ALLOWED[claim][1]
+                    m = build(tok)
+                    before = canon(dict(m._dict))
+                    out = self.class_verify(m, **kw)
+                    sfx = ":" + ALLOWED[claim][0] if with_kw else ""
+                    rec = {"class": type(m).__name__, "embedded": claim, "variant": tag,
+                           "verify_kwargs": {k: v for k, v in kw.items() if k != "keyjar"}, "claims": payload.to_dict()}
+                    ctx.case_seen(rec, out[0] == "accepted")
+                    ctx.count("signed:%s%s:%s" % (tag, sfx, out[0]))
+                    if out[0] == "accepted" and not genuine:
+                        ctx.violation("signed-object:%s:%s%s" % (tag, claim, sfx),
+                                      "%s.verify(%s) accepted a %s that carries no valid signature of its issuer: %s"
+                                      % (type(m).__name__, ", ".join(sorted(kw)), claim, tag), rec)
+                    if out[0] == "refused" and genuine:
+                        ctx.count("signed:refused-a-genuine-token")
+                    if out[0] == "accepted":
+                        self.schema_oracle(type(m).__name__, type(m), m, rec, "verify()")
+                    if claim == "logout_token":
+                        self.bclogout_case(m, before, out, kw, shape, payload, now, rec)
         # a request object that leaves required parameters out (the message as it stands afterwards)
         body = Message(response_type="code", client_id="c", scope="openid")
         tok = body.to_jwt(key=self.kj.get_signing_key("RSA", "c"), algorithm="RS256")
@@ -992,12 +1035,16 @@ class Run:
             # a complete request with a complete object and its forgeries: accepted only with a valid signature
             # (oidc.AuthorizationRequest itself is a row of the signed-object matrix above)
             if name != "idpyoidc.message.oidc.AuthorizationRequest":
-                for tag, tok, genuine in self.token_variants(Message(**copy.deepcopy(objects[0][1])), "c"):
+                for tag, tok, genuine, shape in self.token_variants(Message(**copy.deepcopy(objects[0][1])), "c"):
                     b = attempt(lambda: cls(**dict(copy.deepcopy(outers[0][1]), request=tok)))
                     if b[0] == "exc":
                         ctx.count("request-object:not-constructible")
                         continue
+                    before = canon(dict(b[1]._dict))
                     out = self.class_verify(b[1], keyjar=self.kj)
+                    if rule is not None:
+                        self.request_case(rule, name, self.coq_token(shape, objects[0][1]), before, b[1], out,
+                                          {"class": name, "embedded": "request", "variant": tag})
                     rec = {"class": name, "embedded": "request", "variant": tag, "outer_args": outers[0][1],
                            "object_claims": objects[0][1]}
                     ctx.case_seen(rec, out[0] == "accepted")
@@ -1044,22 +1091,46 @@ class Run:
                         if got != want:
                             ctx.violation("request-object:verified-content", "verify() of %s stores %r as the verified request "
                                           "object, the signed object says %r" % (name, vr["d"], payload), rec)
-                if rule is None:
-                    continue
-                # the same cell for the model
-                if out[0] == "accepted":
-                    res = "(Ok %s)" % self.coq_msg_obj(after)
-                elif out[1] in C.EXC:
-                    res = "(Err %s)" % C.EXC[out[1]]
-                else:
-                    ctx.count("skipped-model:exception-class:" + out[1])
-                    continue
-                if not (pure_json(before) and pure_json(after)):
-                    ctx.unmodelled += 1
-                    continue
-                inp = "(%s, %s, %s, %s, %s)" % (coq_str(rule), coq_str(name), coq_str(self.RO_CLASS),
-                                                coq_opt(payload, coq_msg, "msg") if payload is not None else "(@None msg)", coq_msg(before))
-                self.cases["request"].append(("(%s, %s)" % (inp, res), inp, rec))
+                if rule is not None:
+                    tok_term = "(TJws SigValid %s %s)" % (coq_str(alg), coq_msg(payload)) if payload is not None else "TJunk"
+                    self.request_case(rule, name, tok_term, before, m, out, rec)
+
+    def request_case(self, rule, name, tok_term, before, m, out, rec):
+        """one verify() of a request-object class for the model (Model/Msg.v jar_verify / par_verify over the
+        symbolic token)"""
+        ctx = self.ctx
+        after = canon(dict(m._dict))
+        if out[0] == "accepted":
+            res = "(Ok %s)" % self.coq_msg_obj(after)
+        elif out[1] in C.EXC:
+            res = "(Err %s)" % C.EXC[out[1]]
+        else:
+            ctx.count("skipped-model:exception-class:" + out[1])
+            return
+        if not (pure_json(before) and pure_json(after)):
+            ctx.unmodelled += 1
+            return
+        inp = "(%s, %s, %s, %s, %s)" % (coq_str(rule), coq_str(name), coq_str(self.RO_CLASS), tok_term, coq_msg(before))
+        self.cases["request"].append(("(%s, %s)" % (inp, res), inp, rec))
+
+    def bclogout_case(self, m, before, out, kw, shape, payload, now, rec):
+        """one BackChannelLogoutRequest.verify() for the model (Model/MsgCheck.v bclogout_verify).  The claims are
+        handed to the model as the token object holds them: a JSON-text parameter (`events`) in parsed form
+        (trusted JSON text layer, as everywhere in the message model)"""
+        ctx = self.ctx
+        after = canon(dict(m._dict))
+        kwj = {k: v for k, v in kw.items() if k != "keyjar"}
+        if out[0] == "accepted":
+            res = "(Ok %s)" % self.coq_msg_obj(after)
+        elif out[1] in C.EXC:
+            res = "(Err %s)" % C.EXC[out[1]]
+        else:
+            ctx.count("skipped-model:exception-class:" + out[1])
+            return
+        inp = "(%s, %s, %s, %s, %s, %s)" % (coq_str("idpyoidc.message.oidc.session.BackChannelLogoutRequest"),
+                                           coq_str("idpyoidc.message.oidc.session.LogoutToken"), E.coq_z(now), coq_msg(kwj),
+                                           self.coq_token(shape, canon(dict(payload._dict))), coq_msg(before))
+        self.cases["bclogout"].append(("(%s, %s)" % (inp, res), inp, rec))
 
     def run_model(self):
         ctx = self.ctx
@@ -1067,7 +1138,8 @@ class Run:
                                   ("construct", "pystr * msg * res msg", "chk_construct", "m_construct"),
                                   ("authz", "pystr * option pystr * msg * res msg", "chk_authz", "m_authz"),
                                   ("rules", "rules_case * res (bool * msg)", "chk_rules", "m_rules"),
-                                  ("request", "request_case * res msg", "chk_request", "m_request")):
+                                  ("request", "request_case * res msg", "chk_request", "m_request"),
+                                  ("bclogout", "bclogout_case * res msg", "chk_bclogout", "m_bclogout")):
             cs = self.cases[kind]
             cap = (1200 if kind != "rules" else 4000) if ctx.quick else 10 ** 9
             if len(cs) > cap:
